@@ -16,7 +16,7 @@ ID = "C19"
 LEVEL = "exploration"
 SHARDS = {"quick": 16, "thorough": 16}
 RULE = (
-    "A store is pre-populated by a generated C05 history, then reopened read-only (flag from the constructor argument, from a config dict, from the argument overriding the dump of a writable backend that says "readonly": false, through StorageBackend.create or through a "
+    "A store is pre-populated by a generated C05 history, then reopened read-only (flag from the constructor argument, from a config dict, from the argument overriding the dump of a writable backend that says readonly=false, through StorageBackend.create or through a "
     "FunctionCluster config; with and without memory cache; filesystem and memory) and driven by a second generated history of storage operations and by function-level call sequences "
     "(hits, misses, forget, forget_all, put_metadata with and without store_with_data, get_metadata, memento, list). Oracle: zero mutating audit events under the data and metadata roots "
     "and an unchanged tree digest; reads agree with the model of the pre-populated store; memoize returns without error and without effect; forget_* and write_metadata raise; misses execute "
@@ -351,6 +351,6 @@ def run_shard(ctx):
                                 nshards=ctx.nshards, deadline_s=dl(0.5))
     stats.extra["exhaustive_sequences"] = stats.evaluations
     stats.extra["small_scope_complete"] = bool(complete)
-    core.hyp_search(strategy(thorough), ex, stats, max_examples=2500 if thorough else 80,
+    core.hyp_search(strategy(thorough), ex, stats, max_examples=2500 if thorough else 200,
                     seed=core.hash64(ctx.seed, ID, ctx.shard), findings=ctx.findings, deadline_s=dl(1.0))
     return stats
